@@ -19,8 +19,6 @@
 (*                           assigned SO FAR (a map being filled)          *)
 (*   "id_includes_desc"      the description is hashed into the id         *)
 (*   "id_drops_meaning"      the meaning is not mixed into the id          *)
-(*   "same_by_print"         two print parts are the same placeholder when *)
-(*                           their parenthesis-free printed form agrees    *)
 (***************************************************************************)
 EXTENDS SoyMsg
 CONSTANTS MaxParts, MaxInner, Dev, OnlyCase
@@ -32,8 +30,8 @@ Nodes == MsgNodes(Body)
 
 EmptyAsg == [x \in {} |-> <<>>]
 
-AllCases == IF OnlyCase # "" THEN {x \in MsgFamFlat(MaxParts) \cup MsgFamPlural(MaxInner) : MsgFamId(x) = OnlyCase}
-            ELSE MsgFamFlat(MaxParts) \cup MsgFamPlural(MaxInner)
+Family == MsgFamFlat(MaxParts) \cup MsgFamPlural(MaxInner) \cup MsgFamExtra
+AllCases == IF OnlyCase # "" THEN {x \in Family : MsgFamId(x) = OnlyCase} ELSE Family
 
 Init ==
   /\ cas \in AllCases
@@ -79,19 +77,16 @@ FinalNames == LET ns == Nodes IN [i \in 1..Len(ns) |-> FinalName(ns, ns[i])]
 (***************************************************************************)
 (* (1) names are a function of the sequence of parts.                      *)
 (***************************************************************************)
-NamesAreFunction == todo = {} => FinalNames = MsgNamesOf(Nodes)
+NamesAreFunction ==
+  todo = {} => \/ FinalNames = MsgNamesOf(Nodes)
+               \/ (PrintT(<<"CEX", MsgFamId(cas), FinalNames, MsgNamesOf(Nodes)>>) /\ FALSE)
+
+\* (used with OnlyCase: prints every naming the machine can end with)
+NamingReport == todo = {} => PrintT(<<"NAMING", MsgFamId(cas), FinalNames>>)
 
 (***************************************************************************)
 (* (2) properties of the names.                                            *)
 (***************************************************************************)
-\* "same placeholder" relation; the deviation compares parenthesis-free text
-RECURSIVE FlatText(_)
-FlatText(e) ==
-  CASE e.k = "var" -> "$" \o e.name \o (IF Len(e.acc) = 0 THEN "" ELSE "...")
-    [] e.k = "int" -> ToString(e.v)
-    [] e.k \in {"add", "mul"} -> FlatText(e.a) \o e.k \o FlatText(e.b)
-    [] OTHER -> "?"
-
 NameProps ==
   todo = {} =>
   LET ns == Nodes nm == MsgNamesOf(ns) bs == MsgBaseSet(ns) IN
